@@ -2,6 +2,7 @@
    composite controller: the model is run against the answers the
    implementation received; calls are compared per target. *)
 From MC Require Import Generated.
+From MC Require Import Model.ApplyLaws.
 From MC Require Export Model.Verdict Model.Composite Model.TracePreds Model.Safe Model.Rolling.
 Local Open Scope list_scope.
 
@@ -317,8 +318,24 @@ Definition C06_round (c : ccfg) (r : round) : option string :=
   end.
 Definition C06_check := check_with C06_round proj_child_writes false.
 
+(* without a finalize hook a finalizer left on the parent (by an earlier configuration) is taken off
+   first thing, whether or not the parent is pending deletion: the sync reads or writes the parent
+   before it calls the hook (an error there ends the sync) *)
+Definition C10_leftover (c : ccfg) (parent : json) (evs : list ev) : option string :=
+  if has_finalize c || negb (has_finalizer parent (finalizer_name c)) then None else
+  match evs with
+  | [] => None
+  | _ =>
+      if existsb (fun e => match is_api e with
+                           | Some q => targets_parent c parent q &&
+                                       (verb_eqb (q_verb q) VGet || verb_eqb (q_verb q) VUpdate)
+                           | None => false end) (before_hook evs)
+      then None else Some "leftover-finalizer-not-removed"
+  end.
+
 Definition C10_check := check_with (fun c r =>
-  with_parent (fun p => orelse (C10_round c (r_cache r) p (r_events r)) (C10_handoff c (r_events r))) r) proj_finalizer false.
+  with_parent (fun p => orelse (C10_round c (r_cache r) p (r_events r))
+                          (orelse (C10_leftover c p (r_events r)) (C10_handoff c (r_events r)))) r) proj_finalizer false.
 
 Definition C11_check := check_with (fun c r =>
   with_parent (fun p => orelse (C11_round c p (r_events r) (r_result r)) (C11_attempted c p (r_events r))) r) proj_parent true.
@@ -632,13 +649,68 @@ Definition C09_round (c : ccfg) (r : round) : option string :=
       then Some "child-touched-although-revision-write-failed" else None
   end.
 
+(* a rolling child is never found ahead of the revision recorded for it: an accepted content
+   update (or the delete that Recreate uses for one) of a desired rolling child follows the answer
+   of the revision that claims the child once this sync's revision writes are in *)
+Definition C09_child_follows_its_revision (c : ccfg) (r : round) : option string :=
+  if negb (any_rolling c) then None else
+  match latest_sent c r with
+  | None => None
+  | Some sent =>
+      if is_deleting sent && negb (should_finalize c sent) then None else
+      let after := revs_after c r sent in
+      let pns := get_ns sent in
+      first_some (fun e =>
+        match is_api e with
+        | Some q =>
+            match child_res_of c q with
+            | Some kc =>
+                let g := group_of (ch_api_version kc) in
+                if negb (is_rolling c g (ch_kind kc)) then None else
+                if negb (accepted e) then None else
+                let key := (g, ch_kind kc, relative_name pns (e_pre e)) in
+                match find (fun x => ck_mem key (names_of c x)) after with
+                | None => None
+                | Some x =>
+                    match q_verb q with
+                    | VUpdate =>
+                        if negb (content_changed e) then None else
+                        match answer_for c sent x (r_events r) with
+                        | None => Some "child-updated-without-an-answer-of-its-recorded-revision"
+                        | Some hr =>
+                            match find_desired (relative_desired pns (hr_children (label_resp c sent hr))) g (ch_kind kc) (relative_name pns (e_pre e)) with
+                            | Some d => if containsb (JObj (aremove "status" (obj_map d))) (JObj (aremove "status" (obj_map (q_body q)))) then None
+                                        else Some "child-updated-ahead-of-its-recorded-revision"
+                            | None => None
+                            end
+                        end
+                    | VDelete =>
+                        match answer_for c sent x (r_events r) with
+                        | None => Some "child-deleted-without-an-answer-of-its-recorded-revision"
+                        | Some hr =>
+                            match find_desired (relative_desired pns (hr_children (label_resp c sent hr))) g (ch_kind kc) (relative_name pns (e_pre e)) with
+                            | Some d => match apply_update (obj_map (e_pre e)) (obj_map d) with
+                                        | Ok m => if jeqb (JObj m) (e_pre e) then Some "child-deleted-ahead-of-its-recorded-revision" else None
+                                        | _ => None end
+                            | None => None          (* not desired by its revision: deleted, as any undesired child *)
+                            end
+                        end
+                    | _ => None
+                    end
+                end
+            | None => None
+            end
+        | None => None
+        end) (after_hook (r_events r))
+  end.
+
 Definition C07_check := check_with (fun c r =>
   orelse (C07_round c r) (orelse (C07_condition c r) (C08_no_wait_on_healthy c r))) proj_all true.
 (* after any crash cut or revision-write fault the rollout still ends where an uninterrupted one does *)
 Definition C09_check (c : ccase) : verdict :=
   match C08_final c with
   | Some w => PROPFAIL ("after-interruption-" ++ w)%string
-  | None => check_with C09_round proj_all true c
+  | None => check_with (fun c r => orelse (C09_round c r) (C09_child_follows_its_revision c r)) proj_all true c
   end.
 
 (* C17: the shared caches are read-only; the hook sees what the cache holds *)
@@ -681,11 +753,11 @@ Definition C10_all_live_revisions_finalized (c : ccfg) (r : round) : option stri
   end.
 
 Definition C10_check_r := check_with (fun c r =>
-  orelse (with_parent (fun p => orelse (C10_round c (r_cache r) p (r_events r)) (C10_handoff c (r_events r))) r)
+  orelse (with_parent (fun p => orelse (C10_round c (r_cache r) p (r_events r))
+                                  (orelse (C10_leftover c p (r_events r)) (C10_handoff c (r_events r)))) r)
          (C10_all_live_revisions_finalized c r)) proj_finalizer false.
 
 (* ================= C01: convergence, then quiescence ================= *)
-From MC Require Import Model.ApplyLaws.
 Definition round_child_requests (c : ccfg) (r : round) : nat :=
   List.length (filter (fun e => match is_api e with
                                 | Some q => match child_res_of c q with Some _ => is_write q | None => false end
